@@ -335,27 +335,27 @@ def case_antenna(cfg):
         viol.append({'site': site, 'failure': failure, 'detail': detail, 'params': dict(cfg, history=hist_box[0])})
     depth = cfg['depth']
     npol = cfg['npol']
+    # the two polarisations may carry DIFFERENT source sets (e.g. a complex source on y only)
+    pcfg = [cfg, dict(cfg, sources=cfg.get('y_sources', cfg['sources']))][:npol]
 
     def build():
         a = sv.Antenna(sample_rate=cfg['rate'], fch1=cfg['fch1'], ascending=cfg['asc'], num_pols=npol,
                        t_start=cfg['t_start'], seed=cfg['seed'])
-        for s in a.streams:
-            add_sources(s, cfg)
+        for s, pc in zip(a.streams, pcfg):
+            add_sources(s, pc)
         return a
 
     def build_twins():
         a = sv.Antenna(sample_rate=cfg['rate'], fch1=cfg['fch1'], ascending=cfg['asc'], num_pols=npol,
                        t_start=cfg['t_start'], seed=cfg['seed'])
         tw = []
-        for s in a.streams:
-            add_sources(s, cfg, twin_noise_only=True)
-            tw.append(np.asarray(s.get_samples(depth * 5 + 8)) if n_noise(cfg) else None)
+        for s, pc in zip(a.streams, pcfg):
+            add_sources(s, pc, twin_noise_only=True)
+            tw.append(np.asarray(s.get_samples(depth * 5 + 8)) if n_noise(pc) else None)
         return tw
     twins = build_twins()
     ops = [('get', 2), ('get', 3), ('set', 7.0), ('add', 0.5), ('reset',), ('updx', 4)]
-    if npol == 2 and n_noise(cfg) and not np.any(twins[0] != twins[1]) is False:
-        pass
-    if npol == 2 and n_noise(cfg) and np.array_equal(twins[0], twins[1]):
+    if npol == 2 and n_noise(pcfg[0]) and n_noise(pcfg[1]) and pcfg[0]['sources'] == pcfg[1]['sources'] and np.array_equal(twins[0], twins[1]):
         V('same_noise_xy', 'x and y polarisation streams draw identical noise', 'Antenna')
     frontier = [[]]
     seen = {None}
@@ -377,10 +377,11 @@ def case_antenna(cfg):
                 ts = np.asarray(s.ts)
                 v = np.asarray(out[0][p])
                 if not np.array_equal(v, s.v):
-                    Vf('stacking', 'row %d of the antenna output is not polarisation %s' % (p, 'xy'[p]), 'Antenna.get_samples')
+                    Vf('stacking', 'row %d of the antenna output is not polarisation %s (a complex stream must stay complex in the '
+                       'stacked result)' % (p, 'xy'[p]), 'Antenna.get_samples')
                     return False
-                sig, tol = signal_ref(cfg, ts)
-                noise = twins[p][m.pos:m.pos + n] if n_noise(cfg) else np.zeros(n)
+                sig, tol = signal_ref(pcfg[p], ts)
+                noise = twins[p][m.pos:m.pos + n] if n_noise(pcfg[p]) else np.zeros(n)
                 d = np.abs(v.astype(np.clongdouble) - (noise.astype(LD) + sig))
                 if np.any(d > tol + 1e-13 * (np.abs(noise) + 1)):
                     Vf('stream_value', 'polarisation %s sample values differ from its own timeline/noise' % 'xy'[p], 'Antenna.get_samples')
@@ -477,6 +478,11 @@ def run(ctx):
         if c['sources'] in ('noise', 'noise+chirp+real', 'chirp+complex', 'two_chirps') and c['seed'] == ctx.seed + 5:
             for npol in (1, 2):
                 ants.append(dict(c, npol=npol, depth=depth))
+    for c in cfgs:
+        if c['sources'] in ('chirp', 'noise') and c['seed'] == ctx.seed + 5:
+            ants.append(dict(c, npol=2, depth=depth, y_sources='chirp+complex'))
+        if c['sources'] == 'chirp+complex' and c['seed'] == ctx.seed + 5:
+            ants.append(dict(c, npol=2, depth=depth, y_sources='noise'))
     ctx.pmap(case_antenna, ants, chunk=1)
     return ctx.finish(
         rule='per stream configuration (sample_rate x t_start x orientation x source set x seed): BFS over all operation '
